@@ -445,7 +445,7 @@ Qed.
 Definition gap_rows : list (list bool) := [[true; false; true]].
 
 Lemma grid_select_gap :
-  exists g, grid_select 3 gap_rows = Some g /\ sg_u0 g = 0 /\ sg_nu g = 2 /\ nth_error (col_any gap_rows 3) 2 = Some true.
+  exists g, grid_select false 3 gap_rows = Some g /\ sg_u0 g = 0 /\ sg_nu g = 2 /\ nth_error (col_any gap_rows 3) 2 = Some true.
 Proof. eexists. split; [vm_compute; reflexivity|]. simpl. auto. Qed.
 
 Lemma any_b_kron : forall v u, any_b (kron v u) = true -> any_b v = true /\ any_b u = true.
@@ -459,7 +459,7 @@ Qed.
 (* the selected rectangle starts at the first selected column / row, and when the selected columns and rows are contiguous
    its size is exactly the bounding rectangle of the selected cells *)
 Lemma grid_select_minimal nu sel g lastu lastv :
-  grid_select nu sel = Some g ->
+  grid_select false nu sel = Some g ->
   contiguous (col_any sel nu) -> contiguous (row_any sel) ->
   nth_error (col_any sel nu) lastu = Some true -> (forall i, lastu < i -> nth_error (col_any sel nu) i <> Some true) ->
   nth_error (row_any sel) lastv = Some true -> (forall i, lastv < i -> nth_error (row_any sel) i <> Some true) ->
@@ -498,4 +498,141 @@ Qed.
 Lemma contiguous_block a b c : contiguous (repeat false a ++ repeat true b ++ repeat false c).
 Proof.
   intros i j k Hijk Hi Hk. apply nth_error_block in Hi, Hk. apply nth_error_block. lia.
+Qed.
+
+(* ================================================================== the repaired index computation: spans are filled *)
+Lemma any_b_cons b r : any_b (b :: r) = b || any_b r.
+Proof. reflexivity. Qed.
+
+Lemma fill_after_length : forall l, length (fill_after l) = length l.
+Proof. induction l as [|b r IH]; simpl; [reflexivity|]. rewrite IH. reflexivity. Qed.
+
+Lemma fill_span_length : forall l, length (fill_span l) = length l.
+Proof. induction l as [|b r IH]; simpl; [reflexivity|]. destruct b; simpl; rewrite ?IH, ?fill_after_length; reflexivity. Qed.
+
+Lemma fill_after_nth : forall l i, i < length l -> nth_error (fill_after l) i = Some (any_b (skipn i l)).
+Proof.
+  induction l as [|b r IH]; intros [|i] H; simpl in H; try lia.
+  - reflexivity.
+  - simpl. apply IH. lia.
+Qed.
+
+Lemma any_b_skipn l i : any_b (skipn i l) = true <-> exists b, i <= b /\ nth_error l b = Some true.
+Proof.
+  rewrite any_b_true. split.
+  - intros [k Hk]. rewrite nth_error_skipn_add in Hk. exists (i + k). split; [lia|exact Hk].
+  - intros [b [Hb Hn]]. exists (b - i). rewrite nth_error_skipn_add. replace (i + (b - i)) with b by lia. exact Hn.
+Qed.
+
+(* an index is selected after filling iff it lies between two selected indices *)
+Lemma fill_span_true : forall l i,
+  nth_error (fill_span l) i = Some true <->
+  exists a b, a <= i <= b /\ nth_error l a = Some true /\ nth_error l b = Some true.
+Proof.
+  induction l as [|x r IH]; intros i.
+  - simpl. split; [destruct i; discriminate|]. intros [a [b (_ & H & _)]]. destruct a; discriminate.
+  - destruct x; simpl.
+    + destruct i as [|i]; simpl.
+      * split; [intros _; exists 0, 0; repeat split; auto|reflexivity].
+      * split.
+        -- intros H. assert (Hi : i < length r).
+           { rewrite <- (fill_after_length r). apply nth_error_Some. congruence. }
+           rewrite fill_after_nth in H by exact Hi. injection H as H. apply any_b_skipn in H as [b [Hb Hn]].
+           exists 0, (S b). repeat split; auto; lia.
+        -- intros [a [b (Hab & Ha & Hb)]]. destruct b as [|b]; [lia|]. simpl in Hb.
+           assert (Hi : i < length r) by (assert (b < length r) by (apply nth_error_Some; congruence); lia).
+           rewrite fill_after_nth by exact Hi. f_equal. apply any_b_skipn. exists b. split; [lia|exact Hb].
+    + destruct i as [|i]; simpl.
+      * split; [discriminate|]. intros [a [b (Hab & Ha & _)]]. assert (a = 0) by lia. subst. discriminate.
+      * rewrite IH. split.
+        -- intros [a [b (Hab & Ha & Hb)]]. exists (S a), (S b). repeat split; auto; lia.
+        -- intros [a [b (Hab & Ha & Hb)]]. destruct a as [|a]; [discriminate|]. destruct b as [|b]; [lia|].
+           exists a, b. repeat split; auto; lia.
+Qed.
+
+Lemma fill_span_contiguous l : contiguous (fill_span l).
+Proof.
+  intros i j k Hijk Hi Hk. apply fill_span_true in Hi as [a [b (H1 & H2 & H3)]]. apply fill_span_true in Hk as [a' [b' (H1' & H2' & H3')]].
+  apply fill_span_true. exists a, b'. repeat split; auto; lia.
+Qed.
+
+Lemma fill_span_keeps l i : nth_error l i = Some true -> nth_error (fill_span l) i = Some true.
+Proof. intros H. apply fill_span_true. exists i, i. auto. Qed.
+
+Lemma fill_span_any l : any_b (fill_span l) = any_b l.
+Proof.
+  destruct (any_b l) eqn:E.
+  - apply any_b_true in E as [i Hi]. apply any_b_true. exists i. apply fill_span_keeps. exact Hi.
+  - apply not_true_is_false. intros F. apply any_b_true in F as [i Hi]. apply fill_span_true in Hi as [a [b (_ & Ha & _)]].
+    assert (any_b l = true) by (apply any_b_true; exists a; exact Ha). congruence.
+Qed.
+
+Lemma argmax_unique : forall l a, nth_error l a = Some true -> (forall i, i < a -> nth_error l i = Some false) -> argmax_b l = a.
+Proof.
+  induction l as [|b r IH]; intros [|a] Ha Hb; simpl in *; try discriminate.
+  - injection Ha as ->. reflexivity.
+  - pose proof (Hb 0 ltac:(lia)) as H0. simpl in H0. injection H0 as ->.
+    assert (any_b r = true) by (apply any_b_true; exists a; exact Ha). fold (any_b r). rewrite H. f_equal.
+    apply IH; [exact Ha|]. intros i Hi. apply (Hb (S i)). lia.
+Qed.
+
+Lemma fill_span_argmax l : any_b l = true -> argmax_b (fill_span l) = argmax_b l.
+Proof.
+  intros H. destruct (argmax_first l H) as [H1 H2]. apply argmax_unique; [apply fill_span_keeps; exact H1|].
+  intros i Hi. destruct (nth_error (fill_span l) i) as [[|]|] eqn:E; [|reflexivity|].
+  - exfalso. apply fill_span_true in E as [a [b (Hab & Ha & _)]]. assert (a < argmax_b l) by lia.
+    specialize (H2 a H0). congruence.
+  - exfalso. apply nth_error_None in E. rewrite fill_span_length in E.
+    assert (argmax_b l < length l) by (apply nth_error_Some; congruence). lia.
+Qed.
+
+(* after filling, the number of selected indices is exactly last - first + 1, with first / last those of the raw selection *)
+Lemma fill_span_count l last : any_b l = true ->
+  nth_error l last = Some true -> (forall i, last < i -> nth_error l i <> Some true) ->
+  count (fill_span l) = last - argmax_b l + 1.
+Proof.
+  intros Ha Hl Hafter. rewrite <- (fill_span_argmax l Ha).
+  apply contiguous_count.
+  - apply fill_span_contiguous.
+  - rewrite fill_span_any. exact Ha.
+  - apply fill_span_keeps. exact Hl.
+  - intros i Hi E. apply fill_span_true in E as [a [b (Hab & _ & Hb)]]. apply (Hafter b); [lia|exact Hb].
+Qed.
+
+Lemma grid_select_minimal_repaired nu sel g lastu lastv :
+  grid_select true nu sel = Some g ->
+  nth_error (col_any sel nu) lastu = Some true -> (forall i, lastu < i -> nth_error (col_any sel nu) i <> Some true) ->
+  nth_error (row_any sel) lastv = Some true -> (forall i, lastv < i -> nth_error (row_any sel) i <> Some true) ->
+  nth_error (col_any sel nu) (sg_u0 g) = Some true /\ (forall i, i < sg_u0 g -> nth_error (col_any sel nu) i = Some false) /\
+  nth_error (row_any sel) (sg_v0 g) = Some true /\ (forall i, i < sg_v0 g -> nth_error (row_any sel) i = Some false) /\
+  sg_nu g = lastu - sg_u0 g + 1 /\ sg_nv g = lastv - sg_v0 g + 1.
+Proof.
+  unfold grid_select. intros H Lu Au Lv Av.
+  destruct (any_b (kron (fill_span (row_any sel)) (fill_span (col_any sel nu)))) eqn:K; [|discriminate].
+  apply any_b_kron in K as [Kv Ku]. rewrite fill_span_any in Kv, Ku. injection H as <-. simpl.
+  rewrite !fill_span_argmax by assumption.
+  destruct (argmax_first _ Ku) as [U1 U2]. destruct (argmax_first _ Kv) as [V1 V2].
+  repeat split; auto; apply fill_span_count; auto.
+Qed.
+
+(* every selected cell lies in a selected column and a selected row (so the filled rectangle covers the selection) *)
+Lemma col_any_nth : forall rows nu i, i < nu ->
+  nth_error (col_any rows nu) i = Some (existsb (fun r => nth i r false) rows).
+Proof.
+  induction rows as [|r rs IH]; intros nu i H; simpl.
+  - apply nth_error_repeat. exact H.
+  - rewrite nth_error_map. rewrite (nth_error_nth' (seq 0 nu) 0) by (rewrite seq_length; exact H).
+    rewrite seq_nth by exact H. simpl. f_equal. f_equal.
+    rewrite (nth_error_nth _ _ false (IH nu i H)). reflexivity.
+Qed.
+
+Lemma selected_cell_covered rows nu j row i : i < nu -> nth_error rows j = Some row -> nth i row false = true ->
+  nth_error (col_any rows nu) i = Some true /\ nth_error (row_any rows) j = Some true.
+Proof.
+  intros Hi Hj Hc. split.
+  - rewrite col_any_nth by exact Hi. f_equal. apply existsb_exists. exists row. split; [eapply nth_error_In; eauto|exact Hc].
+  - unfold row_any. rewrite nth_error_map, Hj. simpl. f_equal. apply any_b_true.
+    destruct (nth_error row i) as [b|] eqn:E.
+    + exists i. rewrite (nth_error_nth _ _ false E) in Hc. congruence.
+    + rewrite (nth_overflow row false) in Hc by (apply nth_error_None; exact E). discriminate.
 Qed.
